@@ -567,27 +567,82 @@ def mentions_mode(t):
     return any(pf.is_self_attr(n, "mode") for n in ast.walk(t))
 
 
+def _literals(t, pol, out):
+    """decompose a path condition into literals: conjunctions that hold and disjunctions that fail are
+    split, `not` flips; what cannot be split is kept whole as (expr, polarity)"""
+    if isinstance(t, ast.UnaryOp) and isinstance(t.op, ast.Not):
+        return _literals(t.operand, not pol, out)
+    if isinstance(t, ast.BoolOp) and ((isinstance(t.op, ast.And) and pol) or (isinstance(t.op, ast.Or) and not pol)):
+        for v in t.values:
+            _literals(v, pol, out)
+        return
+    out.append((t, pol))
+
+
 def split_conditions(node):
-    """Conditions at node -> (modes under which node may run, other conditions as a
-    frozenset of (text, polarity)).  A conjunct `self.mode == X and <other>` restricts the
-    modes (when true) and is kept whole among the other conditions."""
-    modes = set(MODES)
-    other = set()
+    """Conditions at node -> (modes under which node may run, other conditions as a frozenset of
+    (text, polarity)).  Path conditions are normalised logically, so nested and flattened forms agree:
+    `if A: if B:` == `if A and B:`;  under A, `not (A and B)` gives `not B`;  `mode in (a, b)` ==
+    `mode == a or mode == b`."""
+    lits = []
     for t, pol, kind in cfgm.conditions_at(node):
         if kind == "assert":
             continue
+        _literals(t, pol, lits)
+    modes = set(MODES)
+    known = {}      # text of an atom -> truth value
+    pending = []    # compound literals: a failed conjunction / a satisfied disjunction
+    for t, pol in lits:
         ms = mode_set_of_test(t)
         if ms is not None:
             modes &= ms if pol else (set(MODES) - ms)
-            continue
-        if mentions_mode(t):
-            if pol and isinstance(t, ast.BoolOp) and isinstance(t.op, ast.And):
-                for v in t.values:
-                    m2 = mode_set_of_test(v)
-                    if m2 is not None:
-                        modes &= m2
-            other.add((pf.src(t), pol))
-            continue
+        elif isinstance(t, ast.BoolOp):
+            pending.append((t, pol))
+        else:
+            known[pf.src(t)] = pol
+    other = set(known.items())
+    changed = True
+    while changed and pending:
+        changed = False
+        for t, pol in list(pending):
+            # (A and B and ..) is False  /  (A or B or ..) is True
+            want = isinstance(t.op, ast.Or)   # truth value one remaining member must take
+            rest, settled = [], False
+            for v in t.values:
+                neg = False
+                while isinstance(v, ast.UnaryOp) and isinstance(v.op, ast.Not):
+                    v, neg = v.operand, not neg
+                ms = mode_set_of_test(v)
+                if ms is not None:
+                    truth = None
+                    eff = (set(MODES) - ms) if neg else ms
+                    if modes <= eff:
+                        truth = True
+                    elif not (modes & eff):
+                        truth = False
+                else:
+                    truth = known.get(pf.src(v))
+                    if truth is not None and neg:
+                        truth = not truth
+                if truth is None:
+                    rest.append((v, neg))
+                elif truth == want:
+                    settled = True   # the compound condition already holds through this member
+            if settled:
+                pending.remove((t, pol))
+                changed = True
+            elif len(rest) == 1:
+                v, neg = rest[0]
+                val = want != neg
+                ms = mode_set_of_test(v)
+                if ms is not None:
+                    modes &= ms if val else (set(MODES) - ms)
+                else:
+                    known[pf.src(v)] = val
+                    other.add((pf.src(v), val))
+                pending.remove((t, pol))
+                changed = True
+    for t, pol in pending:
         other.add((pf.src(t), pol))
     return modes, frozenset(other)
 
